@@ -453,12 +453,8 @@ Definition ep_enter_farm (s : state) (u farm : Z) (p : pay) (extra : list pay) (
       do r <- take_wfm_list s1 u extra;
       let '(s2, its) := r in
       do _ <- rule3 F F a;                             (* into_part of the virtual position *)
-      (* the virtual position's proxy farming tokens are in the proxy's hand; a wrapped LP payment
-         is in its balance already, so it is put back before the common merge takes it *)
-      let s3 := if kind =? 0 then s2 else upd_pwlp s2 (bal_add (s_pwlp s2) (p_non p) a) in
-      do s4 <- (if kind =? 0 then Ok s3
-                else do l <- bal_sub (s_pwlp s3) (p_non p) a; Ok (upd_pwlp s3 l));
-      do r2 <- merge_items s4 u farm (mk_item farm F kind (p_non p) a :: its) e;
+      (* the virtual position's proxy farming tokens are in the proxy's hand like those of the payments *)
+      do r2 <- merge_items s2 u farm (mk_item farm F kind (p_non p) a :: its) e;
       let '(s5, (m, amt, law)) := r2 in
       Ok (s5, mkEff [(TK_WFM, m, amt); (TK_LOCKED, rk, ra)] minted 0 (0, 0) None ((F =? a) && law))
   end.
@@ -493,13 +489,13 @@ Definition ep_exit_farm (s : state) (u farm : Z) (p : pay) (e : env) : result (s
       | Some wl =>
           do lnew <- part_wlp wl rem;
           (* the old wrapped LP tokens stay in the proxy unburned *)
-          do r2 <- kill_wlp (upd_pwlp s1 (s_pwlp s1)) (wf_pn w) pp;
+          do r2 <- kill_wlp s1 (wf_pn w) pp;
           let '(s2, (k, lold)) := r2 in
           do extra <- sub_chk lold lnew;
           do en <- burn_energy e extra;
           let s3 := upd_lp s2 (s_lp s2 + F) in
           let '(s4, n) := mint_wlp s3 rem k lnew in
-          let s5 := upd_lp (upd_hlp s4 (bal_add (s_hlp s4) (hkey n u) rem)) (s_lp s4) in
+          let s5 := upd_hlp s4 (bal_add (s_hlp s4) (hkey n u) rem) in
           Ok (s5, mkEff [(TK_WLP, n, rem); (TK_LOCKED, rk, ra)] 0 bburn (k, extra) en (0 <=? F))
       end.
 
